@@ -5,6 +5,7 @@
 //
 // usage: c15_copymove enumerate <quick|thorough> <part> <nparts>     part selects the class
 //        c15_copymove replay   (stdin: "kind=<name> ops=<o1,o2,...>")
+#include <omp.h>
 #include <unistd.h>
 #include <cinttypes>
 #include <cmath>
@@ -1010,6 +1011,87 @@ static void dispatch(const std::string& kind, const std::string& mode, int depth
         go<KLU>(mode, depth, hist);
 }
 
+// Vectors above the size at which the copy operations start a thread team: every special member, into fresh / equally sized /
+// differently sized targets, with team sizes that do and do not divide the length.  Not part of the breadth-first search (a state
+// would hold 10^4 values); an exhaustive product of its own.
+static void bigVectorBlock(const char* only)
+{
+    long n_ops = 0;
+    for (int n : {10001, 12345, 16384}) {
+        for (int T : {1, 2, 3, 5, 8}) {
+            for (int target = 0; target < 3; target++) {   // 0: default-constructed, 1: same size, 2: other size
+                for (int op = 0; op < 4; op++) {           // 0 copy-construct, 1 copy-assign, 2 move-construct, 3 move-assign
+                    if ((op == 0 || op == 2) && target != 0)
+                        continue;
+                    char spec[96];
+                    snprintf(spec, sizeof spec, "n=%d,T=%d,target=%d,op=%d", n, T, target, op);
+                    if (only && std::string(only) != spec)
+                        continue;
+                    omp_set_num_threads(T);
+                    Vector<double> src(n);
+                    for (int i = 0; i < n; i++)
+                        src[i] = 1.0 + 0.001 * i + (i % 7) * 0.5;
+                    Vector<double> keep = Vector<double>(n);
+                    for (int i = 0; i < n; i++)
+                        keep[i] = src[i];
+                    Vector<double> tgtSame(n), tgtOther(n + 777), tgtEmpty;
+                    for (int i = 0; i < n; i++)
+                        tgtSame[i] = -5.0;
+                    for (int i = 0; i < n + 777; i++)
+                        tgtOther[i] = -7.0;
+                    Vector<double>* t = target == 0 ? &tgtEmpty : (target == 1 ? &tgtSame : &tgtOther);
+                    const char* name = "";
+                    std::string bad;
+                    auto cmp = [&](const Vector<double>& got, const char* what) {
+                        if ((int)got.size() != n) {
+                            bad = std::string(what) + ": size " + std::to_string(got.size()) + " instead of " + std::to_string(n);
+                            return;
+                        }
+                        for (int i = 0; i < n; i++)
+                            if (got[i] != keep[i]) {
+                                bad = std::string(what) + ": element " + std::to_string(i) + " is " + std::to_string(got[i]) + ", the source held " +
+                                      std::to_string(keep[i]);
+                                return;
+                            }
+                    };
+                    if (op == 0) {
+                        name = "copy-construct";
+                        Vector<double> c(src);
+                        cmp(c, "copy");
+                        c[n - 1] += 1; // independence
+                        if (bad.empty() && src[n - 1] != keep[n - 1])
+                            bad = "copy and source share storage";
+                    }
+                    else if (op == 1) {
+                        name = "copy-assign";
+                        *t   = src;
+                        cmp(*t, "copy");
+                        (*t)[0] += 1;
+                        if (bad.empty() && src[0] != keep[0])
+                            bad = "copy and source share storage";
+                    }
+                    else if (op == 2) {
+                        name = "move-construct";
+                        Vector<double> c(std::move(src));
+                        cmp(c, "moved-to object");
+                    }
+                    else {
+                        name = "move-assign";
+                        *t   = std::move(src);
+                        cmp(*t, "moved-to object");
+                    }
+                    n_ops++;
+                    if (!bad.empty())
+                        printf("VIOL Vector:big:%s | Vector with %d elements, %d threads, %s into a %s target: %s | kind=VectorBig ops=%s\n", name, n, T,
+                               name, target == 0 ? "default-constructed" : (target == 1 ? "equally sized" : "differently sized"), bad.c_str(), spec);
+                }
+            }
+        }
+    }
+    omp_set_num_threads(1);
+    printf("STAT big_vector_operations %ld\n", n_ops);
+}
+
 int main(int argc, char** argv)
 {
     static const char* kinds[] = {"Vector",          "SymmetricTridiagonalSolver", "DiagonalSolver",
@@ -1032,6 +1114,17 @@ int main(int argc, char** argv)
                             h.push_back(atoi(t.c_str()));
                 }
             }
+            if (kind == "VectorBig") {
+                std::string line(buf), spec;
+                auto q = line.find("ops=");
+                if (q != std::string::npos) {
+                    spec = line.substr(q + 4);
+                    while (!spec.empty() && (spec.back() == '\n' || spec.back() == ' '))
+                        spec.pop_back();
+                }
+                bigVectorBlock(spec.c_str());
+                continue;
+            }
             dispatch(kind, "replay", 0, h);
         }
         return 0;
@@ -1043,5 +1136,7 @@ int main(int argc, char** argv)
     for (int k = 0; k < 6; k++)
         if (k % nparts == part)
             dispatch(kinds[k], "enumerate", depth, {});
+    if (0 % nparts == part)
+        bigVectorBlock(nullptr);
     return 0;
 }
